@@ -137,6 +137,29 @@ class SArr(_np.ndarray):
             value = _np.array(value, dtype=object)
         _np.ndarray.__setitem__(self, key, value)
 
+    # in-place operators: numpy refuses operands with __array_ufunc__ = None, so route through the binary operator
+    def _inplace(self, other, op):
+        if is_sym(other) or (isinstance(other, _np.ndarray) and other.dtype == object) or self.dtype == object:
+            self[...] = op(self, other)
+            return self
+        return NotImplemented
+
+    def __iadd__(self, o):
+        r = self._inplace(o, lambda a, b: a + b)
+        return _np.ndarray.__iadd__(self, o) if r is NotImplemented else r
+
+    def __isub__(self, o):
+        r = self._inplace(o, lambda a, b: a - b)
+        return _np.ndarray.__isub__(self, o) if r is NotImplemented else r
+
+    def __imul__(self, o):
+        r = self._inplace(o, lambda a, b: a * b)
+        return _np.ndarray.__imul__(self, o) if r is NotImplemented else r
+
+    def __itruediv__(self, o):
+        r = self._inplace(o, lambda a, b: a / b)
+        return _np.ndarray.__itruediv__(self, o) if r is NotImplemented else r
+
     # reductions that would otherwise fork on every comparison
     def min(self, axis=None, **kw):
         if self.dtype != object:
